@@ -31,6 +31,7 @@ unsigned g_cb_calls;      /* number of calls of the dirty callback */
 struct chan *g_cb_chan;   /* arguments of the last call */
 void *g_cb_arg;
 int g_cb_ret;             /* result of the last call */
+int w_cbret;              /* witness ghost: the same, for the native replay */
 int g_cb_saw_dirty;       /* the channel was already marked dirty when called */
 int64_t g_cb_saw_t, g_cb_saw_i; /* value visible to the callback */
 static int
@@ -43,12 +44,13 @@ stub_dirty_cb(struct chan *chan, void *arg)
 	g_cb_saw_t = spec_cur_t(chan);
 	g_cb_saw_i = spec_cur_i(chan);
 	g_cb_ret = nondet_int();
+	w_cbret = g_cb_ret;   /* witness for the native replay */
 	return g_cb_ret;
 }
-#define CB_FRAME g_cb_calls, g_cb_chan, g_cb_arg, g_cb_ret, g_cb_saw_dirty, g_cb_saw_t, g_cb_saw_i
+#define CB_FRAME g_cb_calls, g_cb_chan, g_cb_arg, g_cb_ret, g_cb_saw_dirty, g_cb_saw_t, g_cb_saw_i, w_cbret
 
 /* witness ghosts */
-int w_type, w_dirty, w_dw, w_adup, w_idup, w_hascb;
+int w_type, w_dirty, w_dw, w_adup, w_idup, w_hascb, w_n;
 int64_t w_vt, w_vi, w_lt, w_li, w_ct, w_ci;
 WITNESS(chan_set);
 WITNESS(chan_flush);
@@ -57,7 +59,7 @@ WITNESS(chan_read);
 	w_dw == (c)->prop[CHAN_DIRTY_WRITE] && w_adup == (c)->prop[CHAN_ALLOW_DUP] && \
 	w_idup == (c)->prop[CHAN_IGNORE_DUP] && w_hascb == ((c)->dirty_cb != NULL) && \
 	w_lt == (c)->last_value.type && w_li == (c)->last_value.i)
-#define BIND_CUR(c) (w_ct == spec_cur_t(c) && w_ci == spec_cur_i(c))
+#define BIND_CUR(c) (w_ct == spec_cur_t(c) && w_ci == spec_cur_i(c) && w_n == (c)->data.stack.n)
 
 /* pre-state facts */
 int g_pre_dirty, g_is_dup, g_refused_static, g_ignored, g_writes;
